@@ -17,7 +17,7 @@ import os
 import re
 
 SCALED = dict(HDR=2, MINSZ=4, Variant="code")
-INVS = ["DeliveredPrefix", "NoZeroRead", "PosWithinCap", "NoClobber", "BufferHoldsNext", "DropOnlyBad", "Complete", "GateLive"]
+INVS = ["DeliveredPrefix", "NoZeroRead", "PosWithinCap", "NoClobber", "BufferHoldsNext", "DropOnlyBad", "Complete", "Prompt", "GateLive"]
 TRACE_INVS = ["TraceInv", "TraceInvClosed", "TraceInvEnd"]
 VARIANTS = {  # seeded wrong loop -> instances on which it must be refuted
     "rewind": (True, False),   # copy(buf, buf[fcsize:pos]) instead of advancing the slice: clobbers aliased payloads
@@ -81,7 +81,7 @@ def validate(ctx, files, cfg, tag):
         p, n = item
         return n, ctx.tlc("RecvLoopTrace", cfg, workers=1, timeout=900, env={"TRACE_FILE": p}, heap="3g",
                           name="%s:%s" % (tag, os.path.basename(p)))
-    with cf.ThreadPoolExecutor(max_workers=12) as ex:
+    with cf.ThreadPoolExecutor(max_workers=8) as ex:
         for n, r in ex.map(one, files):
             rj = re.findall(r'"REJECT (\d+) (\d+) (.*)', r.out)
             rejects += [(int(a), int(b), c[:400]) for a, b, c in rj]
@@ -90,10 +90,48 @@ def validate(ctx, files, cfg, tag):
                 ctx.inconclusive.append("RecvLoopTrace (%s): invariant %s failed on a trace of the real loop -- the loop left the "
                                         "envelope of the specification (internal evidence only, see the trace)" % (tag, r.violated))
             elif not r.ok or not m or int(m.group(1)) != n:
+                ctx.log("RecvLoopTrace output tail (%s):\n%s" % (tag, "\n".join(r.out.splitlines()[-25:])))
                 ctx.inconclusive.append("RecvLoopTrace (%s) did not consume its trace: %s" % (tag, r.error or "no CONSUMED line"))
             else:
                 consumed += n
     return rejects, consumed
+
+
+def panic_line(out):
+    m = re.search(r"^(panic: .*|fatal error: .*)$", out or "", re.M)
+    return m.group(1)[:300] if m else "no panic line"
+
+
+def crashed(ctx, rep, eng, progress):
+    """The engine process died (a goroutine of the library panicked).  Attribute the crash to the
+    case in the progress file; it is a C13 violation only if the same stream sent unsplit does
+    not crash (the process dying is externally observable and then depends on the segmentation)."""
+    if rep.get("_exit") == 0 and "cases" in rep:
+        return
+    first = panic_line(rep.get("_stdout"))
+    if not os.path.exists(progress):
+        ctx.log("engine output tail:\n" + "\n".join((rep.get("_stdout") or "").splitlines()[-40:]))
+        ctx.inconclusive.append("engine %s exited %s without a report and without a current case (%s)" % (eng, rep.get("_exit"), first))
+        return
+    case = json.load(open(progress))
+    side = case.get("engine")
+    unsplit = dict(case)
+    unsplit["seg"] = {"class": "unsplit", "cuts": []}
+    r0 = ctx.go_engine("recvh", eng, env={"VERIF_REPLAY_CASE": json.dumps(unsplit)}, timeout=300, name=eng + ":crash-unsplit", allow_crash=True)
+    if r0.get("_exit") != 0 or "cases" not in r0:
+        ctx.log("engine output tail:\n" + "\n".join((r0.get("_stdout") or "").splitlines()[-40:]))
+        ctx.inconclusive.append("engine %s: the process dies on the stream of %s even when it is sent unsplit (%s): not a "
+                                "segmentation effect, C13 cannot be judged on this tree" % (eng, json.dumps(case.get("cfg")), panic_line(r0.get("_stdout"))))
+        return
+    r1 = ctx.go_engine("recvh", eng, env={"VERIF_REPLAY_CASE": json.dumps(case)}, timeout=300, name=eng + ":crash-case", allow_crash=True)
+    if r1.get("_exit") != 0 or "cases" not in r1:
+        cls = (case.get("seg") or {}).get("class")
+        ctx.violation("%s:crash:seg=%s" % (side, cls),
+                      "the process running the real %s dies (%s) when the stream is cut by segmentation %s; the same stream sent "
+                      "unsplit is handled" % ("server" if side == "srv" else "client", panic_line(r1.get("_stdout")), cls), case)
+    else:
+        ctx.inconclusive.append("engine %s died once on case %s (%s) but neither the unsplit nor the same case reproduces it" % (
+            eng, json.dumps(case)[:300], first))
 
 
 def replay(ctx):
@@ -136,12 +174,17 @@ def run(ctx):
                 ctx.inconclusive.append("self-test: the wrong loop %r (%s instance) was not refuted by the RecvLoop invariants" % (v, "server" if server else "client"))
     # ------------------------------------------------------------ 3. sweeps on the real code
     ctx.build_harness("recvh")
-    budget = 60000 if q else 420000
+    budget = 45000 if q else 420000
     tsrv, tclt = ctx.path("recv-srv.ndjson"), ctx.path("recv-clt.ndjson")
+    psrv, pclt = ctx.path("progress-srv.json"), ctx.path("progress-clt.json")
     with cf.ThreadPoolExecutor(max_workers=2) as ex:
-        fs = ex.submit(ctx.go_engine, "recvh", "TestSrvSweep", env={"VERIF_TRACE_OUT": tsrv, "VERIF_TRACE_LINES": budget}, timeout=700)
-        fc = ex.submit(ctx.go_engine, "recvh", "TestClntSweep", env={"VERIF_TRACE_OUT": tclt, "VERIF_TRACE_LINES": budget}, timeout=700)
+        fs = ex.submit(ctx.go_engine, "recvh", "TestSrvSweep", env={"VERIF_TRACE_OUT": tsrv, "VERIF_TRACE_LINES": budget,
+                                                                    "VERIF_PROGRESS": psrv}, timeout=700, allow_crash=True)
+        fc = ex.submit(ctx.go_engine, "recvh", "TestClntSweep", env={"VERIF_TRACE_OUT": tclt, "VERIF_TRACE_LINES": budget,
+                                                                     "VERIF_PROGRESS": pclt}, timeout=700, allow_crash=True)
         rep_s, rep_c = fs.result(), fc.result()
+    crashed(ctx, rep_s, "TestSrvSweep", psrv)
+    crashed(ctx, rep_c, "TestClntSweep", pclt)
     for note in (rep_s.get("stats", {}).get("c12_notes") or []):
         ctx.log("note for C12 (not judged here):", note)
     # ------------------------------------------------------------ 4. code -> spec with the real constants
@@ -149,22 +192,31 @@ def run(ctx):
     ctx.write_cfg("c13_trace_clt.cfg", trace_consts(False), invariants=TRACE_INVS, spec="TraceSpec")
     rejects, consumed, tcases = [], 0, 0
     shard_files = {}
+    jobs = []
     for tag, path, cfg in (("srv", tsrv, "c13_trace_srv.cfg"), ("clt", tclt, "c13_trace_clt.cfg")):
         if not os.path.exists(path):
             ctx.inconclusive.append("no %s trace was written" % tag)
             continue
         files, ncases, nlines = split_cases(path, 6 if q else 8, ctx.scratch, tag)
         shard_files[tag] = files
-        rj, n = validate(ctx, files, cfg, tag)
-        rejects += [(tag,) + x for x in rj]
-        consumed += n
         tcases += ncases
+        jobs.append((tag, files, cfg))
+    with cf.ThreadPoolExecutor(max_workers=2) as ex:
+        for (tag, files, cfg), (rj, n) in zip(jobs, ex.map(lambda j: validate(ctx, j[1], j[2], j[0]), jobs)):
+            rejects += [(tag,) + x for x in rj]
+            consumed += n
     for tag, case, line, txt in rejects[:5]:
         ctx.log("trace reject (%s case %d line %d): %s" % (tag, case, line, txt[:300]))
     if rejects:
-        ctx.inconclusive.append("%d recorded case(s) of the real receive loop were not accepted by RecvLoopTrace (the loop no longer "
-                                "follows the specification step by step; no externally visible difference was found in those cases "
-                                "unless a VIOLATION line says so); first: %s" % (len(rejects), str(rejects[0])[:300]))
+        # drift: the loop no longer follows the specification step by step.  By the verdict rules this is
+        # not a violation (no externally visible difference unless a VIOLATION line says so); it is
+        # reported and lowers the number of validated traces.
+        ctx.log("DRIFT: %d recorded case(s) of the real receive loop were not accepted by RecvLoopTrace; first: %s" % (
+            len(rejects), str(rejects[0])[:300]))
+        ctx.notes.append("trace drift: %d cases" % len(rejects))
+        if len(rejects) >= tcases and tcases > 0:
+            ctx.inconclusive.append("no recorded trace of the real receive loop was accepted by RecvLoopTrace: the specification "
+                                    "no longer describes the loop; first: %s" % str(rejects[0])[:300])
     # self-test of the binding: one corrupted field must be rejected
     corrupt_ok = None
     if shard_files.get("srv"):
